@@ -256,7 +256,24 @@ pub fn violation(prop: &str, sig: &str, detail: String) -> ! {
         )
         .set("recent", J::A(recent));
     println!("{}", j.to_string());
+    // what this shard had covered before it stopped
+    let part = J::obj()
+        .set("type", "summary")
+        .set("partial", true)
+        .set("profile", "partial")
+        .set("execs", EXECS_DONE.load(SeqCst))
+        .set("inconclusive_cut", 0u64)
+        .set("nontrivial_hashes", J::A((0..NONTRIVIAL_DONE.load(SeqCst).min(2000)).map(|i| J::S(format!("partial-{}-{}", std::process::id(), i))).collect()))
+        .set("samples", J::A(vec![]));
+    println!("{}", part.to_string());
     hard_exit(3)
+}
+
+pub static EXECS_DONE: AtomicU64 = AtomicU64::new(0);
+pub static NONTRIVIAL_DONE: AtomicU64 = AtomicU64::new(0);
+
+pub fn check_prop() -> &'static str {
+    *CHECK_PROP.lock().unwrap()
 }
 
 pub fn harness_error(msg: &str) -> ! {
@@ -268,7 +285,21 @@ pub fn harness_error(msg: &str) -> ! {
 /// Installs a panic hook that turns panics into violation / harness-error records.
 /// A panic raised by an assertion inside /repo/src during a legal program refutes the property
 /// under check; any other panic is a harness error.
+pub static CHECK_PROP: Mutex<&'static str> = Mutex::new("");
+
+/// For pure observers (they do not depend on the state staying sane): fatal only when the
+/// violated property is the one under check; otherwise recorded once and the run continues.
+pub fn observer_violation(prop: &str, sig: &str, detail: String) {
+    let mine = *CHECK_PROP.lock().unwrap() == prop;
+    if mine {
+        violation(prop, sig, detail);
+    } else {
+        report(prop, sig, detail);
+    }
+}
+
 pub fn install_panic_hook(default_prop: &'static str) {
+    *CHECK_PROP.lock().unwrap() = default_prop;
     std::panic::set_hook(Box::new(move |info| {
         if crate::ebr::EXPECT_PANIC.with(|p| p.get()) {
             return;
